@@ -30,9 +30,16 @@ backend":
         table lengths equal the sentinels/thresholds that guard their use
         (powers[300] with `bc != 300`, h_mask_small[300] with `n<300`,
         bctable[1024] with `< 1024`, trailtable[256] with `& 255`)
+  Y-R6  remainder identity: every reachable exit of the Python sqrtrem returns
+        a remainder that is, as a polynomial, x - root^2 (root-offset
+        interpreter, sa/rootoff.py)
+  Y-R7  floor-root exits: every reachable exit of isqrt_python / sqrtrem_python
+        returns exactly floor(sqrt(x)) for every error of the approximate root
+        (-1, 0, +1) and every position of x between two squares
 """
 import ast
 
+from .. import rootoff
 from ..index import AnalysisError, norm
 from ..prec_effect import _walk_own
 from ..report import Finding
@@ -505,6 +512,77 @@ def check_tables(run, ix):
         run.fail(F('Y-R4', LIBMPF, '<module>', 'h_mask = %s' % norm(hm), 'selector order of the tie masks changed'))
 
 
+# --------------------------------------------------------------------------- Y-R6 / Y-R7
+# callee -> what it returns relative to floor(sqrt(x)); the error set of the approximate root is the FORKS
+# contract ('may be one unit off') and what isqrt_fast_python is observed to do (-1, 0 and +1 all occur)
+ROOT_CALLS = {
+    'isqrt_fast_python': ('approx', (-1, 0, 1)), 'isqrt_fast': ('approx', (-1, 0, 1)),
+    'isqrt_small_python': ('exact',), 'isqrt_small': ('exact',),
+    'isqrt_python': ('exact',), 'isqrt': ('exact',),
+    'sqrtrem_python': ('pair',), 'sqrtrem': ('pair',),
+}
+ROOT_FUNCS = {'isqrt_python': 'root', 'sqrtrem_python': 'pair'}
+
+
+def check_root_exits(run, ix):
+    m = ix.modules[LIBINT]
+    for name, kind in ROOT_FUNCS.items():
+        defs = module_defs(m, name)
+        if not defs:
+            raise AnalysisError('%s not found in %s' % (name, LIBINT))
+        fn = defs[0]
+        calls = {k: v for k, v in ROOT_CALLS.items() if k != name}
+        it = rootoff.RootInterp(fn, calls)
+        try:
+            exits = it.run()
+        except rootoff.Unsupported as e:
+            run.notes.append('Y-R7: %s not judged (%s)' % (name, e))
+            continue
+        by_site = {}
+        for ex in exits:
+            by_site.setdefault(ex.node, []).append(ex)
+        for node, exs in by_site.items():
+            bad7 = bad6 = None
+            for ex in exs:
+                v = ex.value
+                if isinstance(v, rootoff.Pair):
+                    v = (v.root, v.rem)
+                if kind == 'pair':
+                    if not (isinstance(v, tuple) and len(v) == 2):
+                        bad7 = bad7 or (ex, 'the exit does not return (root, remainder)')
+                        continue
+                    root, rem = v
+                else:
+                    root, rem = v, None
+                off = rootoff.root_offset(root, ex.state) if root is not None else 'nothing is returned'
+                if off != 0:
+                    why = off if isinstance(off, str) else 'returns floor(sqrt(x))%+d' % off
+                    bad7 = bad7 or (ex, why)
+                if rem is not None and isinstance(root, rootoff.Poly):
+                    if not isinstance(rem, rootoff.Poly) or rem != rootoff.X - root * root:
+                        bad6 = bad6 or (ex, 'the returned remainder is `%r`, not x - root^2 = `%r`'
+                                        % (rem, rootoff.X - root * root))
+            site = node if not isinstance(node, ast.FunctionDef) else 'def %s' % name
+            if bad7:
+                run.fail(F('Y-R7', LIBINT, name, site, '%s when %s: the gmpy backend returns the exact floor '
+                           'root here' % (bad7[1], bad7[0].state.describe()), line=getattr(node, 'lineno', None)))
+            else:
+                run.ok('Y-R7', '%s:%d `%s` is the floor root in all %d abstract states reaching it'
+                       % (name, node.lineno, norm(node, 50), len(exs)))
+            if kind == 'pair':
+                if bad6:
+                    run.fail(F('Y-R6', LIBINT, name, site, '%s (%s)' % (bad6[1], bad6[0].state.describe()),
+                               line=getattr(node, 'lineno', None)))
+                else:
+                    run.ok('Y-R6', '%s:%d remainder is identically x - root^2' % (name, node.lineno))
+        dead = [s for s in ast.walk(fn) if isinstance(s, ast.While) and s.body and id(s.body[0]) not in it.visited]
+        for s in dead:
+            run.notes.append('Y-R7: %s:%d `while %s` is never entered when the approximate root is within one unit '
+                     '(body not judged)' % (name, s.lineno, norm(s.test)))
+        run.stats.setdefault('root_offset_states', 0)
+        run.stats['root_offset_states'] += it.n_states
+
+
 def enclosing_func(node):
     p = node
     while p is not None:
@@ -522,10 +600,13 @@ def run(run, ix, tier):
         'Engine-B rounding summaries, return the same special constants and guard the normaliser the same '
         'way; dispatched names are bound on every branch to the like-named alternative and derived tables '
         'are built from the dispatching names; the python-only tie-mask/bit-count tables agree with the '
-        'thresholds guarding them.  NOT decided: bit-identical results (the C routines are unseen; the exact '
-        'integer helpers isqrt_python/numeral_python/python_bitcount are value-level: seeded changes C37-2, '
-        'C37-3 are not detected).')
-    run.assumptions = ['gmpy2/sage C routines implement the contract stated in the table row']
+        'thresholds guarding them; the integer square-root correction code (isqrt_python, sqrtrem_python) is '
+        'executed over a finite abstract domain (error of the approximate root x position of x between two '
+        'squares, polynomial values) and every reachable exit returns the exact floor root and x - root^2.  '
+        'NOT decided: bit-identical results in general (the C routines are unseen; the approximate root '
+        'isqrt_fast_python is assumed to be within one unit, as documented and observed).')
+    run.assumptions = ['gmpy2/sage C routines implement the contract stated in the table row',
+                       'isqrt_fast_python(x) is within one unit of floor(sqrt(x)); floor(sqrt(x)) > %d on the large-x path' % rootoff.K]
     run.trusted = ['FORKS table in sa/checks/c37.py', 'Engine B summaries']
     run.rule('Y-R0', floor=30)
     run.rule('Y-R1', floor=2)
@@ -533,7 +614,10 @@ def run(run, ix, tier):
     run.rule('Y-R3', floor=12)
     run.rule('Y-R4', floor=8)
     run.rule('Y-R5', floor=1, desc='backend alternatives share their recursive tail')
+    run.rule('Y-R6', floor=2, desc='python sqrtrem exits return x - root^2 identically')
+    run.rule('Y-R7', floor=3, desc='python isqrt/sqrtrem exits return the exact floor root in every abstract state')
     n = check_forks(run, ix)
     check_kernel_siblings(run, ix)
     check_tables(run, ix)
+    check_root_exits(run, ix)
     run.stats['backend_dependent_names'] = n
